@@ -179,6 +179,11 @@ let handle (toks : string list) : string =
   | ["weightin"; p; v] -> res_str gi_str (weight_in (pstr_of_string p) (List.map gi_of (String.split_on_char '|' v)))
   | ["shapeok"; a; b; c] -> bool_str (shape_ok (nat_of_int (int_of_string a)) (nat_of_int (int_of_string b)) (nat_of_int (int_of_string c)))
   | ["dshapeok"; a; b] -> bool_str (diag_shape_ok (nat_of_int (int_of_string a)) (nat_of_int (int_of_string b)))
+  | "qbasis" :: n :: gens ->
+      String.concat "/" (List.map lin_str (full_basis (nat_of_int (int_of_string n)) (List.map pstr_of_string gens)))
+  | "twirl" :: n :: m :: gens ->
+      String.concat ";" (List.map (fun ((c, den), p) -> Printf.sprintf "%s,%d,%s" (gi_str c) (int_of_nat den) (string_of_pstr p))
+        (twirl (nat_of_int (int_of_string n)) (List.map pstr_of_string gens) (lin_of m)))
   | _ -> "ERR unknown request"
 
 let () =
